@@ -3658,7 +3658,18 @@ class StateEngine(object):
             handle_error({}, "States.Runtime", message)
             self.event_dispatcher.acknowledge(id)
 
+        """
+        The execution time limit is used throughout: if the State Machine gives
+        one that is not a number it cannot be interpreted.
+        """
         timeout = ASL.get("TimeoutSeconds", self.execution_ttl)
+        if isinstance(timeout, bool) or not isinstance(timeout, (int, float)):
+            timeout = self.execution_ttl
+            illegal_state_machine(
+                ("{} \"TimeoutSeconds\" is not a number: "
+                 "Illegal State Machine.").format(execution_arn)
+            )
+            return
 
         force_full_lookup = "Branch" in context["State"]
         if (not isinstance(ASL.get("States"), dict) or
